@@ -172,6 +172,21 @@ def check_lab_family(ctx, case):
                 # the NotImplementedError of an abstract type whose structure was consulted
                 got = "RuntimeError" if type(e) is RuntimeError else "exc:" + type(e).__name__
             out.append([wd, acc, exp, got])
+        # a type declared first and given its signature afterwards (a plug-in filling in a placeholder class): once
+        # complete it is a candidate like any other, whatever was characterised while it was not
+        if case.get("late"):
+            lw, lu, ld = case["late"]
+            Late = type("LateType", (boot.AbstractPart, M), {"cutter": enz})        # no signature yet: abstract
+            try:
+                Late.characterize(impl.CircularRecord(impl.Seq(lw), id="c"))
+            except Exception:  # noqa
+                pass
+            Late.signature = (lu, ld)
+            try:
+                got_l = type(Late.characterize(impl.CircularRecord(impl.Seq(lw), id="c"))).__name__
+            except Exception as e:  # noqa
+                got_l = "RuntimeError" if type(e) is RuntimeError else "exc:" + type(e).__name__
+            out.append([lw, [got_l], ["LateType"], "-"])
         # one declaration of enzyme and signature, two roles: a mixin carrying both, combined with the module class and
         # with the vector class in subclasses whose bodies are empty — the module type is asked first
         if case.get("vwords"):
@@ -323,8 +338,15 @@ def run(ctx):
             except RuntimeError:
                 continue
             vwords.append([gen.rot(wd, rng.randrange(len(wd))), u, d])
+        late = None
+        lu, ld = gen.rnd(rng, k), gen.rnd(rng, k)
+        if lu not in (sigs[0][0], sigs[1][0]) and rng.random() < 0.6:
+            try:
+                late = [gen.gen_module(rng, enz, lu, ld, tries=200)[0], lu, ld]
+            except RuntimeError:
+                late = None
         if len(words) >= 2:
-            ctx.guard(check_lab_family, {"enz": str(enz), "sigs": sigs, "words": words, "vwords": vwords,
+            ctx.guard(check_lab_family, {"enz": str(enz), "sigs": sigs, "words": words, "vwords": vwords, "late": late,
                                          "kit": asm.cls_name(K) if K else None, "samename": rng.random() < 0.4})
     # characterize over the kit part families
     bases = [c for c in (getattr(m, n, None) for m in boot.kit_modules().values() for n in dir(m))
